@@ -258,7 +258,22 @@ def _canon(v):
         return ("l", tuple(_canon(x) for x in v))
     if t is dict:
         return ("d", tuple(sorted(((_canon(k), _canon(x)) for k, x in v.items()), key=repr)))
-    return ("o", t.__name__, repr(v)[:80])
+    return ("o", t.__name__, _stable_repr(v))
+
+
+_ADDR = re.compile(r" at 0x[0-9a-fA-F]+")
+
+
+def _stable_repr(v):
+    """repr() without memory addresses (objects such as the email.message.Message cbor2 builds for tag 36 have the
+    default object repr; two decodings of the same octets must compare equal)."""
+    try:
+        r = _ADDR.sub("", repr(v))[:80]
+        if hasattr(v, "as_string"):
+            r += "|" + v.as_string()[:80]
+        return r
+    except Exception:
+        return "<unrepresentable>"
 
 
 def clone(v):
